@@ -19,6 +19,7 @@ def gen(rng, tier):
         layers = [d for d in (d1, d2) if d]
         cmds = trees.populate(rng, layers, name, sfx, confdirs, links=rng.random() < 0.4)     # drop-ins that are links to differently named files
         if confdirs: cmds.append("confdirs " + ",".join(enc(x) for x in confdirs))
+        if rng.random() < 0.15: cmds.append("sec - - 1")        # no-symlink rule in force for all entry points alike
         npre = len(cmds)
         args = "%s %s %s %s x3d x23" % (enc(d1), enc(d2), enc(name), enc(sfx))
         body = ["readdirs 0 " + args, "dump 0"]
